@@ -1,5 +1,6 @@
 //! uec-harness: correspondence harness between /repo's crates and the Lean models.
 mod driver;
+mod fam_gen;
 mod fam_sel;
 mod fam_stack;
 mod prims;
@@ -40,6 +41,7 @@ fn main() {
     let rep = match fam.as_str() {
         "stack" => fam_stack::run(&cfg),
         "sel" => fam_sel::run(&cfg),
+        "gen" => fam_gen::run(&cfg),
         f => { eprintln!("unknown family {f}"); std::process::exit(2) }
     };
     let js = serde_json::to_string_pretty(&rep.to_json()).unwrap();
